@@ -51,6 +51,9 @@ pub enum FaultKind {
     ShortWrite,
     /// The call fails once with EINTR (legal for write/read/open).
     Eintr,
+    /// The call fails with the errno that fits its class: ENOSPC (if preferred) or EIO for
+    /// create/write/mkdir/rename/truncate, EIO for fsync/unlink/read.
+    Io { prefer_enospc: bool },
 }
 
 #[derive(Clone, Copy, Debug, PartialEq, Eq, Hash, PartialOrd, Ord)]
@@ -121,6 +124,7 @@ struct Fs {
     /// trace of counted calls since arming (class, path) — used to describe call sites
     call_trace: Vec<(CallClass, String)>,
     trace_calls: bool,
+    fault_paused: bool,
 }
 
 static ACTIVE: AtomicBool = AtomicBool::new(false);
@@ -271,6 +275,7 @@ pub fn set_root(root: &str) {
         counts: BTreeMap::new(),
         call_trace: Vec::new(),
         trace_calls: false,
+        fault_paused: false,
     };
     let mut g = FS.lock().unwrap();
     for t in &TRACKED {
@@ -356,6 +361,19 @@ pub fn start_counting(count_reads: bool) {
     }
 }
 
+/// Suspends / resumes fault counting (operations that are not fault targets, e.g. reopen).
+pub fn pause_fault(p: bool) {
+    let mut g = FS.lock().unwrap();
+    if let Some(fs) = g.as_mut() {
+        fs.fault_paused = p;
+    }
+}
+
+pub fn fault_fired() -> Option<(CallClass, String)> {
+    let g = FS.lock().unwrap();
+    g.as_ref().and_then(|fs| fs.fault_fired.clone())
+}
+
 pub fn disarm_fault() -> FaultReport {
     let mut g = FS.lock().unwrap();
     if let Some(fs) = g.as_mut() {
@@ -388,6 +406,9 @@ impl Fs {
     /// Decides whether the current counted call is the one to fail.
     fn fault_check(&mut self, class: CallClass, path: &str) -> Option<FaultKind> {
         *self.counts.entry(class).or_insert(0) += 1;
+        if self.fault_paused {
+            return None;
+        }
         let plan = self.fault.as_ref()?;
         let is_read = matches!(class, CallClass::OpenExisting | CallClass::Read);
         if is_read && !plan.count_reads {
@@ -401,7 +422,26 @@ impl Fs {
         if self.fault_fired.is_none() && idx == plan.at_call {
             let kind = plan.kind;
             // a fault kind must be legal for the call class, otherwise it does not fire
+            let kind = match kind {
+                FaultKind::Io { prefer_enospc } => {
+                    let e = match class {
+                        CallClass::Create
+                        | CallClass::Write
+                        | CallClass::Mkdir
+                        | CallClass::Rename
+                        | CallClass::Trunc
+                            if prefer_enospc =>
+                        {
+                            libc::ENOSPC
+                        }
+                        _ => libc::EIO,
+                    };
+                    FaultKind::Errno(e)
+                }
+                k => k,
+            };
             let legal = match kind {
+                FaultKind::Io { .. } => false,
                 FaultKind::Errno(_) => true,
                 FaultKind::ShortWrite => class == CallClass::Write,
                 FaultKind::Eintr => matches!(
@@ -518,7 +558,7 @@ unsafe fn do_open(dirfd: c_int, path: *const c_char, flags: c_int, mode: mode_t)
                 errno_set(libc::EINTR);
                 return -1;
             }
-            FaultKind::ShortWrite => {}
+            FaultKind::ShortWrite | FaultKind::Io { .. } => {}
         }
     }
     drop(g);
@@ -652,6 +692,7 @@ unsafe fn do_write(fd: c_int, buf: *const c_void, count: size_t, off: Option<off
                         n = count / 2;
                     }
                 }
+                FaultKind::Io { .. } => {}
             }
         }
     }
@@ -727,7 +768,7 @@ unsafe fn read_fault(fd: c_int) -> Option<ssize_t> {
             errno_set(libc::EINTR);
             Some(-1)
         }
-        FaultKind::ShortWrite => None,
+        FaultKind::ShortWrite | FaultKind::Io { .. } => None,
     }
 }
 
